@@ -2747,3 +2747,173 @@ CATALOGUE['C11'] += [
         orphan = int_param(params, md, 'orphan', '0')
         start, end, sz = opt(start, end, wanted, orphan, sequence)"""),
 ]
+
+# ------------------------------------------------ rules from waves 8 and 9
+CATALOGUE['C02'] += [
+    V('lookup skips sources that are false as containers',
+      '_DocumentTemplate.py',
+      """        for e in reversed(self._data):
+            try:
+                e = e[key]
+            except (KeyError, NameError):
+                continue
+
+            if call:""",
+      """        for e in reversed(self._data):
+            if not e:
+                continue
+            try:
+                e = e[key]
+            except (KeyError, NameError):
+                continue
+
+            if call:""", 'C02.R3'),
+    V('instance wrapper falls back to item access', '_DocumentTemplate.py',
+      """        except AttributeError:
+            raise KeyError(key)
+""",
+      """        except AttributeError:
+            try:
+                result = self.inst[key]
+            except Exception:
+                raise KeyError(key)
+""", 'C02.R10'),
+]
+
+CATALOGUE['C03'] += [
+    V('ustr normalises text values', 'ustr.py',
+      """    if isinstance(v, (str, bytes)):
+        return v
+    else:
+        fn = getattr""",
+      """    if isinstance(v, (str, bytes)):
+        return v.replace('\\x00', '') if isinstance(v, str) else v
+    else:
+        fn = getattr""", 'C03.R8'),
+    V('fast path: ampersand only counts with a second condition',
+      '_DocumentTemplate.py',
+      """                        if ('&' in t or '<' in t or '>' in t or '"' in t or  # NOQA: W504,E501
+                                "'" in t):""",
+      """                        if ('<' in t or '>' in t or '"' in t or  # NOQA: W504,E501
+                                "'" in t or ('&' in t and ';' not in t)):""",
+      'C03.R2'),
+]
+
+CATALOGUE['C05'] += [
+    V('container assertion registered for the tuple', 'security.py',
+      'dictInstance = templateDict(dummy=1)[0]',
+      'dictInstance = templateDict(dummy=1)', 'C05.R8'),
+]
+
+CATALOGUE['C09'] += [
+    V('undefined name recorded in the if-cache', '_DocumentTemplate.py',
+      """                                cond = None
+                            else:
+                                cache[n] = cond""",
+      """                                cond = None
+                            cache[n] = cond""", 'C09.R2'),
+    V('refused underscore name signalled with another exception',
+      '_DocumentTemplate.py',
+      "                raise KeyError(key)  # Don't divulge private data",
+      "                raise ValueError(key)  # Don't divulge private data",
+      'C09.R5'),
+]
+
+CATALOGUE['C10'] += [
+    V('skip handler also covers the element push', 'DT_In.py',
+      """                    try:
+                        client = guarded_getitem(sequence, index)
+                    except ValidationError as vv:
+                        if 'skip_unauthorized' in self.args and \\
+                           self.args['skip_unauthorized']:
+                            continue""",
+      """                    try:
+                        client = guarded_getitem(sequence, index)
+                        push(InstanceDict(client, md))
+                        pop()
+                    except ValidationError as vv:
+                        if 'skip_unauthorized' in self.args and \\
+                           self.args['skip_unauthorized']:
+                            continue""", 'C10.R9'),
+    V('prefix mapping skips values already present', 'DT_Util.py',
+      """        map = self.map
+        map[name] = value
+        dp = self.defprefix""",
+      """        map = self.map
+        if map.get(name) is value:
+            return
+        map[name] = value
+        dp = self.defprefix""", 'C10.R10'),
+]
+
+CATALOGUE['C13'] += [
+    V('nocase breaks ties by code point', 'DT_In.py',
+      '    return cmp(str1.lower(), str2.lower())',
+      '    return cmp(str1.lower(), str2.lower()) or cmp(str1, str2)',
+      'C13.R8'),
+]
+
+CATALOGUE['C14'] += [
+    V('returned bytes decoded by the template call', 'DT_String.py',
+      """                except DTReturn as v:
+                    result = v.v
+""",
+      """                except DTReturn as v:
+                    result = v.v
+                if isinstance(result, bytes):
+                    result = result.decode('latin-1')
+""", 'C14.R10'),
+]
+
+CATALOGUE['C16'] += [
+    V('statistics loop left at the first item without the value',
+      'DT_InSV.py',
+      """                    except Exception:
+                        if name != 'item':
+                            raise""",
+      """                    except Exception:
+                        if name != 'item':
+                            break""", 'C16.R7'),
+]
+
+CATALOGUE['C17'] += [
+    V('statistics accumulate in place', 'DT_InSV.py',
+      '                    sum = sum + item', '                    sum += item',
+      'C17.R10'),
+    V('decode_seq memoised', 'TreeTag.py',
+      'def decode_seq(state):',
+      'from functools import lru_cache\n\n\n@lru_cache(maxsize=64)\n'
+      'def decode_seq(state):', 'C17.R9'),
+]
+
+CATALOGUE['C19'] += [
+    V('try tag keeps the handler sections', 'DT_Try.py',
+      "                        self.handlers.append((errname, nsection.blocks))",
+      "                        self.handlers.append((errname, nsection))",
+      'C19.R8'),
+    V('items decoded after concatenation', 'DT_In.py',
+      "            result = join_unicode(result, encoding=self.encoding)\n\n"
+      "        finally:\n            if cache:\n                pop()\n"
+      "            pop()\n\n        return result\n\n    def sort_sequence",
+      "            try:\n                result = b''.join(result).decode("
+      "self.encoding)\n            except TypeError:\n"
+      "                result = join_unicode(result, "
+      "encoding=self.encoding)\n\n"
+      "        finally:\n            if cache:\n                pop()\n"
+      "            pop()\n\n        return result\n\n    def sort_sequence",
+      'C19.R3'),
+]
+
+CATALOGUE['C06'] += [
+    V('section name alias merged into the start tag', 'DT_String.py',
+      '                    sname = tag', '                    stag = tag',
+      'C06.R4'),
+]
+
+CATALOGUE['C07'] += [
+    V('comment scanner passes over SSI directives', 'DT_HTML.py',
+      "               name_match=re.compile('[\\000- ]*[a-zA-Z]+[\\000- ]*').match,",
+      "               name_match=re.compile('[\\000- ]*[a-zA-Z]+[\\000- ]*').match,\n"
+      "               ssi_match=re.compile('(include|echo|exec)[ ]+[a-z]+=').match,",
+      'C07.R11'),
+]
